@@ -463,6 +463,36 @@ func init() {
 		}
 		return nil
 	})
+	// wide: maps of 13..40 keys (sort.Slice and sort.SliceStable agree up to 12 elements: stability of Sort
+	// under comparators with ties - by length, by first letter - only shows on larger maps)
+	register("omap-wide", func(args map[string]string, out *bufio.Writer) error {
+		n := argInt(args, "n", 200)
+		r := newRng(uint64(argInt(args, "seed", 1)))
+		letters := []string{"a", "b", "c", "d"}
+		for i := 0; i < n; i++ {
+			ops := []string{}
+			want := 13 + r.intn(28)
+			seen := map[string]bool{}
+			for len(seen) < want {
+				k := ""
+				for l := 1 + r.intn(3); l > 0; l-- {
+					k += pick(r, letters)
+				}
+				seen[k] = true
+				ops = append(ops, fmt.Sprintf("set:%s:%d", k, r.intn(9)))
+				if r.chance(10) {
+					ops = append(ops, "remove:"+k)
+					delete(seen, k)
+				}
+			}
+			for j := 1 + r.intn(3); j > 0; j-- {
+				ops = append(ops, pick(r, []string{"sort:len", "sort:first", "sort:len", "sort:first", "sort:asc", "sort:desc", "filter:even", "map:klen"}), "iter")
+			}
+			ops = append(ops, "len", "iter", "values", "marshal", "prev")
+			omapEmit(out, ops)
+		}
+		return nil
+	})
 	// replay / shrink support: run the given op sequences (one per line in file `in`)
 	register("omap-eval", func(args map[string]string, out *bufio.Writer) error {
 		for _, line := range readLines(args["in"]) {
